@@ -121,14 +121,24 @@ def validate_model(tier):
     # SiteBatch.search: exhaustive on small site lists (no arithmetic core: plain enumeration, stated as such)
     from hydrodiy.io import hyruns
     for n in range(1, 7):
-        sites = ['s%d' % i for i in range(n)]
-        for k in range(1, n + 1):
-            sb = hyruns.SiteBatch(sites, k)
-            try:
-                ok = all(s in sb[sb.search(s)] for s in sites) and sorted(sum([sb[i] for i in range(k)], [])) == sorted(sites)
-            except Exception:
-                ok = False
-            out.append(('SiteBatch.search-returns-the-batch-holding-the-site', ok, dict(nsites=n, nbatch=k)))
+        for order in ('sorted', 'reversed', 'shuffled'):
+            sites = ['s%d' % i for i in range(n)]
+            if order == 'reversed':
+                sites = sites[::-1]
+            elif order == 'shuffled':
+                sites = [sites[(3 * i + 1) % n] for i in range(n)] if n in (4, 5) else sites[1:] + sites[:1]
+            for k in range(1, n + 1):
+                try:
+                    sb = hyruns.SiteBatch(sites, k)
+                    got = [list(sb[i]) for i in range(k)]
+                    ok = all(s in sb[sb.search(s)] for s in sites) and sorted(sum(got, [])) == sorted(sites)
+                    # the batches are the contiguous slices get_batch assigns, of the list AS GIVEN
+                    want = [[sites[j] for j in hyruns.get_batch(n, k, i)] for i in range(k)]
+                    okslice = got == want
+                except Exception:
+                    ok = okslice = False
+                out.append(('SiteBatch.search-returns-the-batch-holding-the-site', ok, dict(nsites=n, nbatch=k, order=order)))
+                out.append(('SiteBatch-batches-are-slices-of-the-given-list', okslice, dict(nsites=n, nbatch=k, order=order)))
     return out
 
 
